@@ -4,7 +4,7 @@
  the C++ writer and the C++ reader still disagrees with it.  Programs compared: muscle::Message (C++), the mini codec (MiniMessage.c), the
  micro codec (MicroMessage.c), message.py; MessageIOGateway, MiniMessageGateway.c, MicroMessageGateway.c, message_transceiver_thread.py.
  1. spec -> code: TLC enumerates the vectors of the common repertoire (WireVec.tla: every kind x 1..3 items, every ordered pair of fields
-    in both orders, nesting 1..3, sub-Message arrays, odd names) with their bytes and with Common(python / pynative, m); harness/wire.cpp
+    in both orders, nesting 1..3 and 31 / 32 / 33 / 64 / 200, sub-Message arrays, odd names, fields with ZERO items of every kind) with their bytes and with Common(python / pynative, m); harness/wire.cpp
     builds each one through the C++ API - by a script that leaves the content but is NOT append-only for 5 of 6 variants (WireAbs.DetourOf:
     prepend onto the rest, first in first out, overwrite by Replace, shrink to one item and regrow; the item arrays get rotated, wrapped and
     regrown) - (bytes = specification bytes of the content), has the same bytes parsed and re-serialised by the mini codec, the
@@ -23,13 +23,17 @@ from wirelib import q
 PID = "C08"
 _tlc_slots = threading.Semaphore(8)
 KEYS = ["mini_u", "mini_b", "micro_u", "micro_b", "py_u", "py_b"]
+KNOWN_TEXT = {"F38": "the micro reader cannot read a zero-length raw item that is the last item of its field",
+              "F39": "message.py writes a wrong length for a sub-Message that has a non-ASCII field name",
+              "F45mini": "mini codec, Message with a zero-item field: MMUnflattenMessage refuses the C++ bytes / MMPut*Field(.., 0) returns NULL",
+              "F45micro": "micro writer, Message with a zero-item raw field: re-serialisation / native construction lose exactly that field (no call writes a raw field with zero items)"}
 
 
 def run(v, tier, seed):
     quick = (tier == "quick")
     vlib.make("plain", "wire")
     helpers = wirelib.build_helpers("plain")
-    tolerate = [f for f in ("F38", "F39") if v.is_listed(f)]          # open known findings about the other implementations (none at present)
+    tolerate = [f for f in ("F38", "F39", "F45mini", "F45micro") if v.is_listed(f)]          # open known findings about the other implementations
     tol = ",".join(tolerate) if tolerate else "-"
     W = lambda n: vlib.scratch(PID, "%d_%s" % (os.getpid(), n))
     tag = "q%d" % os.getpid()
@@ -51,8 +55,8 @@ def run(v, tier, seed):
             tot["tlc_lines"] += res["lines"] if res["accepted"] else res["first_rejected"] - 1
             tot["pyok"] += res["pyok"]; tot["pynative"] += res["pynative"]
             notes["tlc"].append({"trace": name, "lines": res["lines"], "accepted": res["accepted"], "wall_s": round(res["wall"], 1)})
-        for fid in ("F38", "F39"):
-            if res[fid]: known(fid, "%d recorded lines on which %s applies show the disagreement" % (res[fid], fid))
+        for fid in ("F38", "F39", "F45mini", "F45micro"):
+            if res[fid]: known(fid, "%s (%d recorded lines)" % (KNOWN_TEXT[fid], res[fid]))
         if not res["accepted"]:
             ln = res["first_rejected"]; line = open(tr).read().splitlines()[ln - 1]
             keep = os.path.join(vlib.OUT, PID, "rejected-line-%s-%s.json" % (tier, name))
@@ -68,8 +72,7 @@ def run(v, tier, seed):
 
     # ---- 1: vectors enumerated by TLC
     def vectors(parts):
-        vec = []
-        for part in parts:
+        def enum(part):
             name = mkcfg("Vec_" + part, consts={"Part": q(part)}, invs=["VecOK", "Emit"])
             with _tlc_slots: r = vlib.tlc("WireVec", name, wirelib.FAM, workers=1, timeout=1800, heap="3g")
             vlib.require_ok(r, "WireVec part %s" % part)
@@ -77,7 +80,8 @@ def run(v, tier, seed):
             with lock:
                 tot["states"] += r.distinct
                 notes["tlc"].append({"enumeration": part, "vectors": r.distinct, "wall_s": round(r.wall, 1)})
-            vec += r.printed
+            return r.printed
+        with cf.ThreadPoolExecutor(max_workers=len(parts)) as ex2: vec = [x for lst in ex2.map(enum, parts) for x in lst]
         for i, x in enumerate(vec): x["id"] = i
         vf = W("vec.ndjson"); tr = W("vec.trace.ndjson"); rep = W("vec.rep.ndjson")
         vlib.write_ndjson(vf, vec)
@@ -169,7 +173,7 @@ def run(v, tier, seed):
 
     try:
         with cf.ThreadPoolExecutor(max_workers=12) as ex:
-            fs = [ex.submit(vectors, ["all"] if quick else ["all", "triples"])]
+            fs = [ex.submit(vectors, ["all", "zero", "deep"] if quick else ["all", "zero", "deep", "triples"])]
             scale = float(os.environ.get("VERIF_SCALE", "1"))           # < 1: a reduced thorough run
             nsh, per = (4, 700) if quick else (8, max(200, int(40000 * scale)))
             fs += [ex.submit(random_vectors, k, per) for k in range(nsh)]
@@ -212,6 +216,8 @@ def run(v, tier, seed):
            "samples": samples[:4]}
     assumptions = ["little-endian host; python3 of the sandbox runs lang/python3 unchanged",
                    "the repertoire common to C++ and message.py is WireAbs.Common: names and strings well-formed UTF-8, no float32 signalling NaN in a Point / Rect (and none in a float field for native construction from Python floats)",
+                   "a field with zero items (C++: ShareName + removal through the other Message) is inside every implementation's repertoire; what the C codecs cannot do with it is the open known finding F45mini / F45micro, tolerated only in its listed form (mini: refuses / returns NULL; micro: the bytes without the zero-item raw fields)",
+                   "gateway batches (MGDoOutput / UGDoOutput build natively) are drawn from vectors WITHOUT zero-item fields: a Message the mini codec refuses would tear down the whole batch",
                    "the micro codec is fed well-formed buffers only (its reader's missing bounds checks are finding F19 of C02); buffers of 8 MB",
                    "the Python transceiver has no separable framing helper: it is bound by an echo session over loopback TCP; if 127.0.0.1 cannot be used the leg is recorded as skipped, not as a violation",
                    "zlib encodings of MessageIOGateway are outside this property (default encoding only)"]
